@@ -171,5 +171,20 @@ def multi_file(f_units, f_space, arr, form):
         scd = _scr.rdscript_to_dict(sc)
         scd["system"] = "system.json" if form != 1 else os.path.abspath("system.json")
         json.dump(scd, open("script.json", "w", encoding="utf-8"))
+        if form in (2, 3):
+            # ANOTHER model lives in the directory the loader is run from, under the same relative names (network, space, arrays):
+            # a relative reference is relative to the file that names it, never to the current directory
+            other = mk_script((f_units + 2) % 5, f_space, 2, 1, 4)
+            od = os.path.join(d.path, "elsewhere")
+            os.makedirs(os.path.join(od, "sub"), exist_ok=True)
+            _net.save_rdnetwork(other.system.network, os.path.join(od, "sub", "net.json"))
+            _space.save_rdspace(other.system.space, os.path.join(od, "sub", "space.json"))
+            _sys.save_rdsystem(other.system, os.path.join(od, "system.json"))
+            np.save(os.path.join(od, "state.npy"), np.array(other.system.state.value, dtype=float) + 77.0)
+            np.save(os.path.join(od, "chem.npy"), 1 - np.array(other.system.chemostats, dtype=int))
+            np.save(os.path.join(od, "sub", "env.npy"), np.zeros(len(other.system.chemostats), dtype=int)[:other.system.space.size()])
+            from strengths import text_array_rw as _t
+            _t.save_1D_array_txt([1 - int(c) for c in other.system.chemostats], os.path.join(od, "chem.txt"))
+            _t.save_1D_array_txt([0] * other.system.space.size(), os.path.join(od, "sub", "env.txt"))
         back = _load_from(d, 3 if form in (2, 3) else form, "script.json", _scr.load_rdscript)
         return same_script(sc, back)
